@@ -388,6 +388,30 @@ impl ObjState for [Link] {
         early_err!(errors, "Links");
 
         for (idx, link) in self.iter().enumerate().skip(1) {
+            // Validate that all references stay inside the network
+            let mut is_out_of_range = false;
+            for (link_idx, name) in [
+                (link.idx_flip, "flip"),
+                (link.idx_next, "next"),
+                (link.idx_next_alt, "next alt"),
+                (link.idx_prev, "prev"),
+                (link.idx_prev_alt, "prev alt"),
+            ] {
+                if link_idx.idx() >= self.len() {
+                    errors.push(anyhow!(
+                        "Link {} has link index {} = {} outside of the network (length {})!",
+                        idx,
+                        name,
+                        link_idx,
+                        self.len()
+                    ));
+                    is_out_of_range = true;
+                }
+            }
+            if is_out_of_range {
+                continue;
+            }
+
             // Validate flip and curr
             if link.idx_curr.idx() != idx {
                 errors.push(anyhow!(
